@@ -169,6 +169,8 @@ def gen_wrap_case(rnd, cid, dom=None, force=None):
     if alt is not None:
         line += " alt cons %d %s" % (len(alt), " ".join(alt))
     line += " vars %d %s w %d sg %d ov %d %s thr %d ind %d" % (len(vars_), " ".join(map(str, vars_)), w, sg, ov, guard, thr, ind)
+    if dom in ("C", "NNC"):
+        line += " st %d" % rnd.randrange(NSTATES)
     line += " cand " + " ".join("%d %s" % (len(c), " ".join(fmtq(v) for v in c)) for c in cand)
     line += " ucand %d %s" % (len(ucand), " ".join(map(str, ucand)))
     return line
@@ -243,17 +245,54 @@ def small_poly(rnd, n, strict_ok=False):
     return cons
 
 
+NSTATES = 7   # lazy representation states of harness/run_wrap.cc (C / NNC polyhedra)
+
+
+def open_shape(rnd, n, strict_ok):
+    """integer-cornered boxes of width 0..2 whose sides are open or closed at random, optionally cut to a (half-)open diagonal
+    segment or simplex: NNC sets whose CLOSURE has integral (closure) points that the set itself may lack"""
+    cons = []
+    for i in range(n):
+        lo = rnd.randint(-3, 3); hi = lo + rnd.choice([0, 1, 1, 1, 2])
+        if hi == lo:
+            cons.append("= %s" % row(n, -lo, {i: 1}))
+            continue
+        cons.append(ge_frac(n, i, lo, 1, ">" if strict_ok and rnd.random() < 0.6 else ">="))
+        cons.append(ge_frac(n, i, hi, -1, ">" if strict_ok and rnd.random() < 0.6 else ">="))
+    if n >= 2 and rnd.random() < 0.6:
+        i, j = rnd.sample(range(n), 2)
+        k = rnd.choice(["diag", "diag", "antidiag", "lt", "sumlt"])
+        c = rnd.randint(-1, 1)
+        if k == "diag": cons.append("= %s" % row(n, -c, {i: 1, j: -1}))
+        elif k == "antidiag": cons.append("= %s" % row(n, -rnd.randint(-3, 5), {i: 1, j: 1}))
+        elif k == "lt": cons.append("%s %s" % (">" if strict_ok else ">=", row(n, -c, {i: 1, j: -1})))
+        else: cons.append("%s %s" % (">" if strict_ok else ">=", row(n, rnd.randint(-2, 6), {i: -1, j: -1})))
+    return cons
+
+
+def poly_for(rnd, n, dom):
+    if dom in ("C", "NNC") and rnd.random() < 0.5:
+        return open_shape(rnd, n, dom == "NNC")
+    return small_poly(rnd, n, dom == "NNC")
+
+
+def states_of(rnd, dom):
+    """C / NNC instances are run in EVERY lazy state (same set: same answer, equal to the verified reference)"""
+    return list(range(NSTATES)) if dom in ("C", "NNC") else [None]
+
+
 def gen_cip_case(rnd, cid, dom):
     n = rnd.choice([1, 2, 2, 3])
-    cons = small_poly(rnd, n, dom == "NNC")
-    return "cip %s %s %d cons %d %s" % (cid, dom, n, len(cons), " ".join(cons))
+    cons = poly_for(rnd, n, dom)
+    base = "%s %d cons %d %s" % (dom, n, len(cons), " ".join(cons))
+    return ["cip %s%s %s%s" % (cid, "" if st is None else "s%d" % st, base, "" if st is None else " st %d" % st) for st in states_of(rnd, dom)]
 
 
 def gen_drop_case(rnd, cid, dom):
     n = rnd.choice([1, 2, 2, 3])
     if rnd.random() < 0.03:
         # zero-dimensional universe: by the library's convention it contains an integer point
-        return "drop %s %s 0 cons 0%s vars -1 cx %d cand" % (cid, dom, " cgs 0" if dom == "GRID" else "", rnd.choice([0, 1, 2]))
+        return ["drop %s %s 0 cons 0%s vars -1 cx %d cand" % (cid, dom, " cgs 0" if dom == "GRID" else "", rnd.choice([0, 1, 2]))]
     line = "drop %s %s %d " % (cid, dom, n)
     if dom == "GRID":
         cgs = []
@@ -263,7 +302,7 @@ def gen_drop_case(rnd, cid, dom):
                 cgs.append("%d %s" % (m, row(n, -a, {i: d})))
         line += "cons 0 cgs %d %s" % (len(cgs), " ".join(cgs))
     else:
-        cons = small_poly(rnd, n, dom == "NNC")
+        cons = poly_for(rnd, n, dom)
         line += "cons %d %s" % (len(cons), " ".join(cons))
     if rnd.random() < 0.5:
         line += " vars -1"
@@ -273,8 +312,10 @@ def gen_drop_case(rnd, cid, dom):
     line += " cx %d" % rnd.choice([0, 1, 2])
     rng = [F(v) for v in range(-5, 7)] + [F(1, 2), F(-3, 2), F(7, 3)]
     per = rng if n <= 2 else rng[2:11] + [F(1, 2)]
-    line += " cand " + " ".join("%d %s" % (len(per), " ".join(fmtq(v) for v in per)) for _ in range(n))
-    return line
+    tail = " cand " + " ".join("%d %s" % (len(per), " ".join(fmtq(v) for v in per)) for _ in range(n))
+    head, _, rest = line.partition(" " + cid + " ")
+    return ["%s %s%s %s%s%s" % (head, cid, "" if st is None else "s%d" % st, rest, "" if st is None else " st %d" % st, tail)
+            for st in states_of(rnd, dom)]
 
 
 def make_cases(seed, nwrap, ncip, ndrop, start=0):
@@ -286,10 +327,10 @@ def make_cases(seed, nwrap, ncip, ndrop, start=0):
         out.append(gen_wrap_case(rnd, "w%d" % k, dom)); k += 1
     for i in range(ncip):
         dom = ["C", "NNC", "BDS", "OCT", "BOX"][i % 5]
-        out.append(gen_cip_case(rnd, "c%d" % k, dom)); k += 1
+        out += gen_cip_case(rnd, "c%d" % k, dom); k += 1
     for i in range(ndrop):
         dom = ["C", "NNC", "BDS", "OCT", "BOX", "GRID"][i % 6]
-        out.append(gen_drop_case(rnd, "d%d" % k, dom)); k += 1
+        out += gen_drop_case(rnd, "d%d" % k, dom); k += 1
     return out
 
 
